@@ -41,6 +41,7 @@ let scripted_path (path : string) (v : bview) : response hres =
   match strip_prefix "/e" path with Some c -> HNormal (resp_new (n_of_int (num_int c land 0xffff))) | None ->
   match strip_prefix "/gd" path with Some m -> if view_pending v then HGetBody (num m) else HDrop | None ->
   match strip_prefix "/gg" path with Some m -> HGetBody (num m) | None ->
+  match strip_prefix "/gv" path with Some m -> if view_pending v then HGetBody (num m) else text 200 vs | None ->
   match strip_prefix "/g5" path with Some m -> if view_pending v then HGetBody (num m) else text 500 vs | None ->
   match strip_prefix "/g" path with Some m -> if view_pending v then HGetBody (num m) else text 200 vs | None ->
   match strip_prefix "/r" path with
